@@ -10,6 +10,7 @@ import FFS.Driver.Ffi
 import FFS.Driver.Keystore
 import FFS.Driver.FsWallet
 import FFS.Driver.Proxy
+import FFS.Driver.FsWalletConc
 open Lean FFS FFS.Driver
 
 def dispatch (op : String) (j : Json) : Json :=
@@ -49,6 +50,7 @@ def dispatch (op : String) (j : Json) : Json :=
   | "prim" => opPrim j
   | "fsw.run" => opFswRun j
   | "proxy.handle" => opProxyHandle j
+  | "fswc.run" => opFswcRun j
   | _ => Json.mkObj [("bad", "op")]
 
 partial def loop (hin : IO.FS.Stream) (hout : IO.FS.Stream) : IO Unit := do
